@@ -1001,6 +1001,28 @@ def run(repo, rep):
     forms_rules(repo, rep)
     carry_rule(repo, rep)
     digit_rules(repo, rep)
+    zero_angle_rules(repo, rep)
+
+
+def zero_angle_rules(repo, rep):
+    """an angle of exactly zero is inside the domain (the equator, Greenwich, a whole-degree value of 0): no conversion divides by the angle
+    or its magnitude.  Every module-level conversion function with one parameter is evaluated on a symbolic angle x in [-720, 720] (array
+    methods it does not model stay opaque - the divisions are met all the same) and the division rule looks at x = 0."""
+    from ..symval import Evaluator, DIV_EVENTS
+    from . import common
+    m = repo.module('geodepy.angles')
+    del DIV_EVENTS[:]
+    funcs = []
+    for name, f in sorted(m.functions.items()):
+        if len(f.params) != 1 or name.startswith('_') or '2' not in name:
+            continue
+        ev = Evaluator(repo, opaque=set(), inline_depth=3)
+        try:
+            ev.call_function(f, {f.params[0].name: Rat.sym('x')})
+        except Exception:
+            continue
+        funcs.append(('geodepy.angles', name))
+    common.division_rule(repo, rep, funcs, {'x': (-720.0, 720.0)})
 
 
 def controls(repo):
